@@ -6,7 +6,7 @@ import numpy as np
 from ..case import Case
 from .. import spec
 from .common import gt, fields, declare_factor, make_factor, make_cond
-from .condprops import cond_decl, prior_decl
+from .condprops import cond_decl, prior_decl, make_prior, CTOR_VARIANTS
 
 PROP = "C15"
 
@@ -168,7 +168,7 @@ def cond_case(kind, what, Dx, Dy, Rc, Rx, N=2, semi=(), timeout=600):
             c = make_cond(kind, "c_", A, Dy, Dx)
             if which == "general":
                 c = CondWrap(general_of(c, A), {})
-            px = pdf.GaussianPDF(Sigma=A["Sx"], mu=A["mx"])
+            px = make_prior(A)
             x, y = A["x"], A["y"]
             if what == "cond_x":
                 d = c(x)
@@ -240,8 +240,8 @@ def cases(tier, seed=0):
                     out.append(cond_case(kind, what, 2, 2, Rc, Rx, semi=("Sx", "Sy"), timeout=1800))
     for kind in ("diag", "identity", "identitydiag", "nncontrol"):
         dd = (2, 2) if kind.startswith("identity") else (2, 1)
-        for var in (("viaL",), ("upd",)):
-            if kind == "nncontrol" and var == ("viaL",):
+        for var in CTOR_VARIANTS:
+            if kind == "nncontrol" and var in (("viaL",), ("viaSL",)):
                 continue
             for what in ("set_y", "joint", "conditional", "info", "logcond"):
                 sm = var + (("Sx",) if dd == (2, 2) and what in ("conditional", "info", "logcond") else ())
